@@ -2,8 +2,8 @@
 (* C04 with a consensus component that acknowledges before it commits      *)
 (* (crdt batching, a lagging raft follower): every history of at most      *)
 (* MaxLen events over {pin c1 with options A, pin c1 with options B,       *)
-(* unpin c1, update c2->c1, update c1->c3, pin c3 updating from c1, unpin  *)
-(* of the sharded content, Flush} with Flush at every position.            *)
+(* unpin c1, update c2->c1, update c1->c3, pin c3 updating from c1, plain  *)
+(* pin of c3, unpin of the sharded content, Flush}, Flush at any position. *)
 (* Invariant: at every flushed state FlushOK (the pinset is the sequential *)
 (* application of the acknowledged successful calls).  Every history of    *)
 (* EmitLens events is also printed as one JSON line and replayed on a real *)
@@ -18,7 +18,7 @@ OA == Opt("n1", "rec", <<1, 2>>, "f1", <<MA>>, <<>>, <<>>, NoCid)
 OB == [OA EXCEPT !.name = "n2"]
 C1A == DataEnt("c1", "n1", "rec", <<1, 2>>, <<"p2", "p1">>, "f1", <<MA>>, <<>>, NoCid)
 DCalls == {PinCall("c1", OA), PinCall("c1", OB), UnpinCall("c1"), UpdCall("c2", "c1", PlainOpt), UpdCall("c1", "c3", PlainOpt),
-           PinCall("c3", [OA EXCEPT !.upd = "c1"]), UnpinCall("m1")}
+           PinCall("c3", [OA EXCEPT !.upd = "c1"]), PinCall("c3", PlainOpt), UnpinCall("m1")}
           \cup T({}, {UnpinCall("c2"), PinCall("c2", OB), UnpinCall("c3")})
 
 \* what the mutant of interest does: the "same options" branch returns without LogPin (used only by the _nologpin cfg,
